@@ -92,7 +92,7 @@ def enumerate_faults(ws, rng):
 
     nmeas = len(ws["measurements"])
 
-    def F(cls, variant, pos, edits, poi=None):
+    def F(cls, variant, pos, edits, poi=None, pname=None):
         if cls in ("override_len", "poi_undefined", "lumi_unset"):
             mi = pos[0]
         else:
@@ -100,6 +100,8 @@ def enumerate_faults(ws, rng):
         routes = ["model", "workspace"] if rng.random() < 0.35 else (["model"] if rng.random() < 0.8 else ["workspace"])
         out.append({"op": "inject", "cls": cls, "variant": variant, "pos": pos, "edits": edits, "poi": poi,
                     "mi": mi, "routes": routes})
+        if pname is not None:
+            out[-1]["pname"] = pname
 
     # dup_channel
     for i in range(len(chans)):
@@ -240,7 +242,7 @@ def enumerate_faults(ws, rng):
                     for cj, sj in rng.sample(cands, min(1, len(cands))):
                         new = {"name": m["name"], "type": t2, "data": _moddata(t2, nb[cj], rng)}
                         F("par_conflict", f"{m['type']}_vs_{t2}", [ci, si, mi, cj, sj],
-                          [["ins", ["channels", cj, "samples", sj, "modifiers"], len(chans[cj]["samples"][sj]["modifiers"]), new]])
+                          [["ins", ["channels", cj, "samples", sj, "modifiers"], len(chans[cj]["samples"][sj]["modifiers"]), new]], pname=m["name"])
     # override_len (per measurement)
     mods = {}
     for ci, c in enumerate(chans):
@@ -268,7 +270,7 @@ def enumerate_faults(ws, rng):
                         e = [["ins", base, len(plist), {"name": name, key: bad}]]
                     else:
                         e = [["set", base + [existing, key], bad]]
-                    F("override_len", f"{key}_{variant}_{sorted(types)[0]}", [mi_, name], e, poi=None)
+                    F("override_len", f"{key}_{variant}_{sorted(types)[0]}", [mi_, name], e, poi=None, pname=name)
         for i, p in enumerate(plist):
             dupe = copy.deepcopy(p)
             if "inits" in dupe:
@@ -292,10 +294,10 @@ def enumerate_faults(ws, rng):
         base = ["measurements", mi_, "config", "parameters"]
         li = next((i for i, p in enumerate(plist) if p["name"] == "lumi"), None)
         if has_lumi and li is not None:
-            F("lumi_unset", "no_settings", [mi_], [["del", base + [li]]])
+            F("lumi_unset", "no_settings", [mi_], [["del", base + [li]]], pname="lumi")
             for keep in (["auxdata"], ["sigmas"], ["inits", "bounds"], ["auxdata", "sigmas"], ["auxdata", "sigmas", "inits"], ["auxdata", "sigmas", "bounds"]):
                 part = {"name": "lumi", **{k: plist[li][k] for k in keep}}
-                F("lumi_unset", "only_" + "_".join(keep), [mi_], [["set", base + [li], part]])
+                F("lumi_unset", "only_" + "_".join(keep), [mi_], [["set", base + [li], part]], pname="lumi")
         elif not has_lumi:
             # splice a lumi modifier in without any settings
             ci = rng.randrange(len(chans))
@@ -397,6 +399,30 @@ def gen(rng: random.Random, k: int, tier: str) -> dict:
         pairs.append({"op": "inject", "cls": "pair", "variant": f"{a['cls']}+{b['cls']}", "pos": [a["pos"], b["pos"]],
                       "edits": a["edits"] + b["edits"], "poi": None, "mi": a["mi"], "routes": ["model", "workspace"],
                       "parts": [{"cls": a["cls"], "variant": a["variant"]}, {"cls": b["cls"], "variant": b["variant"]}]})
+    # two faults about ONE parameter name (e.g. lumi settings removed AND the name 'lumi' also demanded by a normsys):
+    # each component is refused alone; together one may mask the other's check
+    byname = {}
+    for f in faults:
+        if f.get("pname") is not None:
+            byname.setdefault(f["pname"], []).append(f)
+    related = []
+    for name in sorted(byname):
+        fs = byname[name]
+        for i in range(len(fs)):
+            for j in range(i + 1, len(fs)):
+                a, b = fs[i], fs[j]
+                if a["cls"] == b["cls"]:
+                    continue
+                if {tuple(e[1][:4]) for e in a["edits"]} & {tuple(e[1][:4]) for e in b["edits"]}:
+                    continue
+                if "override_len" in (a["cls"], b["cls"]) and "lumi_unset" in (a["cls"], b["cls"]):
+                    continue   # both edit the same measurement entry
+                # the measurement used must be the one whose settings were damaged
+                mi = a["mi"] if a["cls"] in ("override_len", "lumi_unset") else b["mi"]
+                related.append({"op": "inject", "cls": "pair", "variant": f"{a['cls']}+{b['cls']}", "pos": [a["pos"], b["pos"]],
+                                "edits": a["edits"] + b["edits"], "poi": None, "mi": mi, "routes": ["model", "workspace"],
+                                "parts": [{"cls": a["cls"], "variant": a["variant"]}, {"cls": b["cls"], "variant": b["variant"]}]})
+    pairs += rng.sample(related, min(len(related), 12))
     body = faults + controls + pairs
     rng.shuffle(body)
     ops += body
